@@ -673,6 +673,108 @@ theorem copyH_abs {h : Heap} {root : Addr} (hm : h.MapsOk) (hcl : h.Closed) (hro
     rw [clone_id]
     exact ⟨_, this.1, this.2⟩
 
+/-! ### move: detach, attach, roll back -/
+
+theorem mapsOk_write_rem {h : Heap} (hm : h.MapsOk) {pf : Addr} {last : String} {cellR : Cell}
+    (hc : RemCell h pf last cellR) : (h.write pf cellR).MapsOk := by
+  intro a kvs hg
+  by_cases ha : a = pf
+  · subst ha
+    have hlt : a < h.size := by
+      rcases hc with ⟨xs, idx, _, hg', _⟩ | ⟨kvs', hg', _⟩ <;> exact get?_lt hg'
+    rw [get?_write_self h _ hlt] at hg
+    rcases hc with ⟨xs, idx, _, _, _, _, rfl⟩ | ⟨kvs', hg', rfl⟩
+    · split at hg <;> cases hg
+    · cases Option.some.inj hg
+      exact AMap.sorted_erase (hm a kvs' hg') last
+  · rw [get?_write_ne h _ ha] at hg
+    exact hm a kvs hg
+
+theorem moveH_abs {h : Heap} {root : Addr} (hm : h.MapsOk)
+    {d : Node} {f path : Path} {F : Nat} (hplf : Plain f) (hpl : Plain path) (hp : path ≠ [])
+    (hd : absH F h root = some d) (hdestf : Dest h root (parent f) [])
+    (hdest1 : ∀ n, evalH h root f = some n →
+      Dest (doRemoveH f h root).1 root (parent path) [n] ∧ Dest (doRemoveH f h root).1 root (parent f) [n]) :
+    ∃ G, absH G (moveOrCopyH (some f) path h root true).1 root =
+        some (Ytk.Patch.moveOrCopy (some f) path d true).1 ∧
+      (moveOrCopyH (some f) path h root true).2 = (Ytk.Patch.moveOrCopy (some f) path d true).2 := by
+  have hm' : ∀ a kvs, Reach h root a → h.get? a = some (.cont kvs) → AMap.Sorted kvs :=
+    fun a kvs _ hg => hm a kvs hg
+  obtain ⟨j1, j2⟩ := absH_eval f F root d hplf hd
+  unfold moveOrCopyH moveOrCopyWith Ytk.Patch.moveOrCopy
+  dsimp only
+  rw [Ytk.Ptr.eval_snd]
+  cases hn : evalH h root f with
+  | none => rw [j2 hn]; exact ⟨F, hd, rfl⟩
+  | some n =>
+    obtain ⟨dn, hdn, hevn, _⟩ := j1 n hn
+    rw [hevn]
+    simp only [if_true]
+    by_cases hfp : f = path
+    · rw [if_pos hfp, if_pos hfp]; exact ⟨F, hd, rfl⟩
+    · rw [if_neg hfp, if_neg hfp]
+      by_cases hpp : Ytk.Patch.properPrefix f path = true
+      · rw [if_pos hpp, if_pos hpp]; exact ⟨F, hd, rfl⟩
+      · rw [if_neg hpp, if_neg hpp]
+        have hf : f ≠ [] := by
+          intro e; subst e
+          exact hpp (properPrefix_nil (fun e => hfp e.symm))
+        obtain ⟨R1, R2⟩ := doRemoveH_abs hm' hplf hf hd hdestf
+        obtain ⟨D1, D2⟩ := hdest1 n hn
+        rcases doRemoveH_cases f h root with ⟨h0, _⟩ | h0 | ⟨n', pf, cellR, hn', hpf, h0, hcell⟩
+        · rw [hn] at h0; cases h0
+        · rw [h0] at R1 R2 ⊢
+          generalize Ytk.Patch.doRemove f d = vr at R1 R2 ⊢
+          obtain ⟨r1, o1⟩ := vr
+          dsimp only at R1 R2 ⊢
+          subst R2
+          exact ⟨F, R1, rfl⟩
+        · rw [hn] at hn'; cases Option.some.inj hn'
+          rw [h0] at R1 R2 D1 D2 ⊢
+          generalize Ytk.Patch.doRemove f d = vr at R1 R2 ⊢
+          obtain ⟨r1, o1⟩ := vr
+          dsimp only at R1 R2 D1 D2 ⊢
+          subst R2
+          dsimp only
+          -- the detached node abstracts as before: it is a child of the written cell
+          obtain ⟨pf', hpf', hstep⟩ := evalH_parent_last hf hn
+          rw [hpf] at hpf'; cases Option.some.inj hpf'
+          obtain ⟨cell0, hg0, hk0⟩ := stepH_kid hstep
+          have hnr : ¬ Reach h n pf := (hdestf pf hpf).2.1 cell0 hg0 n hk0
+          have hn1 : absH (F - f.length) (h.write pf cellR) n = some dn := by
+            rw [absH_write_frame cellR hnr]; exact hdn
+          have hm1 := mapsOk_write_rem hm hcell
+          have hm1' : ∀ a kvs, Reach (h.write pf cellR) root a → (h.write pf cellR).get? a = some (.cont kvs) →
+              AMap.Sorted kvs := fun a kvs _ hg => hm1 a kvs hg
+          obtain ⟨A1, A2⟩ := doAddH_abs hm1' hpl hp R1 hn1 D1
+          rcases doAddH_cases (some n) path (h.write pf cellR) root with h2 | ⟨v, par, cell', hv, _, h2, _⟩
+          · rw [h2] at A1 A2 ⊢
+            generalize Ytk.Patch.doAdd (some dn) path r1 = va at A1 A2 ⊢
+            obtain ⟨r2, o2⟩ := va
+            dsimp only at A1 A2 ⊢
+            subst A2
+            dsimp only
+            obtain ⟨B1, B2⟩ := doAddH_abs hm1' hplf hf A1 hn1 D2
+            rcases doAddH_cases (some n) f (h.write pf cellR) root with h3 | ⟨v3, par3, cell3, _, _, h3, _⟩
+            · rw [h3] at B1 B2 ⊢
+              generalize Ytk.Patch.doAdd (some dn) f r2 = vb at B1 B2 ⊢
+              obtain ⟨r3, o3⟩ := vb
+              dsimp only at B1 B2 ⊢
+              subst B2
+              exact ⟨_, B1, rfl⟩
+            · rw [h3] at B1 B2 ⊢
+              generalize Ytk.Patch.doAdd (some dn) f r2 = vb at B1 B2 ⊢
+              obtain ⟨r3, o3⟩ := vb
+              dsimp only at B1 B2 ⊢
+              subst B2
+              exact ⟨_, B1, rfl⟩
+          · rw [h2] at A1 A2 ⊢
+            generalize Ytk.Patch.doAdd (some dn) path r1 = va at A1 A2 ⊢
+            obtain ⟨r2, o2⟩ := va
+            dsimp only at A1 A2 ⊢
+            subst A2
+            exact ⟨_, A1, rfl⟩
+
 /-! ### test: reads only -/
 
 theorem absH_det {h : Heap} {a : Addr} {f f' : Nat} {x y : Node} (hx : absH f h a = some x)
